@@ -1068,7 +1068,7 @@ pub fn run_c10(tier: Tier) -> i32 {
     plan.push(("3conns/streaming-calls-only/8-9events", mk3(tier.pick(8, 9)), 0));
     let mut a = base_assumptions();
     a.push("stream items are produced by driver events once the service has opened the stream; a stream's last item carries continues=false when the stream then ends, continues=true when it stays open".into());
-    a.push("in the notified-state phases (child process `sockets c10-child`) the service's reply streams are the library's own notified::State / notified::Once of zlink-tokio and zlink-smol: a subscriber may skip values but gets them in order, marked continues, and has the latest one once the server is idle; callers of Set / Get / Once get exactly their replies whatever the subscribers do".into());
+    a.push("in the notified-state phases (child process `sockets c10-child`) the service's reply streams are the library's own notified::State / notified::Once of zlink-tokio and zlink-smol: a subscriber may skip values but gets them in order, marked continues, and has the latest one once the server is idle; callers of Set / Get / Once get exactly their replies whatever the subscribers do; in the real-transport phase (child process `sockets c10-real-child`) a stream over the zlink-tokio / zlink-smol transports produces a small item, one of about 700 KB (several socket writes) and a final one, with a plain call pipelined before or behind the streaming call".into());
     run_plan_with(
         "C10",
         tier,
@@ -1076,7 +1076,10 @@ pub fn run_c10(tier: Tier) -> i32 {
         a,
         &["stream-item", "non-final-item-flagged-continues-false", "stream-ends", "calls-pipelined-behind-streaming-call", "stream-ends-with-calls-queued-behind", "other-client-calls-while-stream-open", "calls-arrive-while-stream-open", "client-unwritable-mid-stream"],
         plan,
-        &[("sockets", "c10-child", "notified-state-service/tokio+smol(child)", &["burst-of-state-changes-while-subscribed", "subscriber-got-the-latest-value", "one-shot-stream", "subscriber-hangs-up"])],
+        &[
+            ("sockets", "c10-child", "notified-state-service/tokio+smol(child)", &["burst-of-state-changes-while-subscribed", "subscriber-got-the-latest-value", "one-shot-stream", "subscriber-hangs-up"]),
+            ("sockets", "c10-real-child", "real-listeners-and-transports/stream-with-a-700KB-item/tokio+smol(child)", &["stream-item-of-several-socket-writes"]),
+        ],
     )
 }
 
